@@ -440,7 +440,7 @@ func (fd *Client) Query(input *dynamodb.QueryInput) (*dynamodb.QueryOutput, erro
 
 	scanIndexForward := input.ScanIndexForward == nil || aws.BoolValue(input.ScanIndexForward)
 
-	items, lastKey := table.SearchData(core.QueryInput{
+	queryInput := core.QueryInput{
 		Index:                     indexName,
 		ExpressionAttributeValues: mapAttributeValueToTypes(input.ExpressionAttributeValues),
 		Aliases:                   aws.StringValueMap(input.ExpressionAttributeNames),
@@ -449,7 +449,13 @@ func (fd *Client) Query(input *dynamodb.QueryInput) (*dynamodb.QueryOutput, erro
 		KeyConditionExpression:    *input.KeyConditionExpression,
 		FilterExpression:          aws.StringValue(input.FilterExpression),
 		ScanIndexForward:          scanIndexForward,
-	})
+	}
+
+	if err := table.ValidateKeyCondition(queryInput); err != nil {
+		return nil, err
+	}
+
+	items, lastKey := table.SearchData(queryInput)
 
 	count := int64(len(items))
 
